@@ -99,7 +99,10 @@ CHECKS = {
    technique="Coq proof over node state machine + simulator correspondence (real handlers, real store) per delivery",
    design="6/C09"),
  'C10': dict(
-XX
+   text="partial. Proved: locator heights exactly head-k / head-k^2, descending; get-blocks server replies with consecutive active-"
+        "chain ids whose parent is genesis or an announced id on the active chain, progress on a match below the head, empty reply "
+        "at/above the head; linear initial block download reaches the server's chain in ceil(missing/batch) rounds; at-most-once "
+        "relay (C09/C13 theorems). Not proved: convergence of FORKED nodes under every interleaving (fairness, "
         "timers) -- explored on 2-3 real nodes in simnet with forked histories beyond the dense locator range, multiple inventory "
         "batches, all small topologies, seeded schedulers, then a transaction broadcast.",
    note="Liveness/convergence is exploration, not proof; real timers, threads, TCP back-pressure are outside the model.",
